@@ -49,7 +49,7 @@ Always set `CARGO_TARGET_DIR={tgt}` and `CARGO_NET_OFFLINE=true` and pass `--off
                         and together with patch.diff).
 * `{out}/meta.json`   - {{"property": "{pid}", "summary": "...what was changed and what goes wrong...", "file": "...", "function": "...",
                         "needs_to_manifest": "...the specific sequence / fault / interleaving / input...",
-                        "demo_cmd": "CARGO_NET_OFFLINE=true cargo test --offline --test <name>   (run from the repository root)",
+                        "demo_cmd": "CARGO_NET_OFFLINE=true cargo test --offline --test <name>"  (a plain shell command run from the repository root, nothing else in the string),
                         "why_existing_tests_pass": "..."}}
 
 Before you finish: reset the worktree (`git checkout -- . && git clean -fdq -e target`), apply demo.diff alone and run demo_cmd (must pass),
